@@ -25,7 +25,7 @@ PROPS = {
     'C02': dict(modules=['NutsProofs.Props.C02'], suites=[S('db-sparse', (80, 150), (2000, 200))],
                 assumptions=['the on-disk node files (.bptidx: data offsets as keys) are abstracted to the content of the tree they were written from; validated by the correspondence only',
                              'key/value operations only (list/set/sorted-set are not supported by the library in this mode)']),
-    'C03': dict(modules=['NutsProofs.Props.C03'], suites=[S('db-kv', (60, 150), (1500, 200)), S('db-kvbig', (40, 200), (800, 300)), S('bpt-ds', (40, 200), (800, 400))]),
+    'C03': dict(modules=['NutsProofs.Props.C03'], suites=[S('db-kv', (100, 150), (1500, 200)), S('db-kvbig', (40, 200), (800, 300)), S('bpt-ds', (40, 200), (800, 400))]),
     'C04': dict(modules=['NutsProofs.Props.C04'], suites=[S('db-iso', (60, 150), (1500, 200)), S('db-isoset', (40, 200), (800, 300))]),
     'C05': dict(modules=['NutsProofs.Props.C05'],
                 suites=[S('list-ds', (150, 40), (4000, 60)), S('db-list', (50, 150), (1000, 200))],
